@@ -167,7 +167,23 @@ pub fn t_bitor(a: &Value, b: &Value) -> RRes { bit_op(a, b, |x, y| x | y, |x, y|
 pub fn t_bitxor(a: &Value, b: &Value) -> RRes { bit_op(a, b, |x, y| x ^ y, |x, y| x != y) }
 
 /// `==` of the derived PartialEq (structural; IEEE == on floats; numeric == on decimals)
-pub fn val_eq(a: &Value, b: &Value) -> bool { a == b }
+/// Written out (NOT the crate's own `PartialEq`, which is one of the things under test): same kind and equal payload, IEEE `==` on floats
+/// (NaN != NaN, -0.0 == 0.0), numeric `==` on decimals, element-wise on lists, key- and value-wise on maps, None == None structurally.
+pub fn val_eq(a: &Value, b: &Value) -> bool {
+    match (a, b) {
+        (Value::String(x), Value::String(y)) => x == y,
+        (Value::Int(x), Value::Int(y)) => x == y,
+        (Value::Float(x), Value::Float(y)) => x == y,
+        (Value::Decimal(x), Value::Decimal(y)) => x == y,
+        (Value::Bool(x), Value::Bool(y)) => x == y,
+        (Value::DateTime(x), Value::DateTime(y)) => x == y,
+        (Value::Duration(x), Value::Duration(y)) => x == y,
+        (Value::Vec(x), Value::Vec(y)) => x.len() == y.len() && x.iter().zip(y).all(|(p, q)| val_eq(p, q)),
+        (Value::Map(x), Value::Map(y)) => x.len() == y.len() && x.iter().zip(y).all(|((k1, v1), (k2, v2))| k1 == k2 && val_eq(v1, v2)),
+        (Value::None, Value::None) => true,
+        _ => false,
+    }
+}
 
 pub fn t_contains(c: &Value, i: &Value) -> RRes {
     match (c, i) {
